@@ -147,10 +147,12 @@ class BaseVersion(object):
     initializer.
     """
 
+    # NB: "\Z" rather than "$" (which also matches before a trailing newline)
+    # and "[0-9]" rather than "\d" (which also matches non-ASCII digits).
     re_valid_version = re.compile(
-        r"^((?P<epoch>\d+):)?"
+        r"\A((?P<epoch>[0-9]+):)?"
         "(?P<upstream_version>[A-Za-z0-9.+:~-]+?)"
-        "(-(?P<debian_revision>[A-Za-z0-9+.~]+))?$")
+        "(-(?P<debian_revision>[A-Za-z0-9+.~]+))?\\Z")
     magic_attrs = (
         'full_version', 'epoch', 'upstream_version',
         'debian_revision', 'debian_version')
